@@ -53,6 +53,8 @@ TwoPassVar(s) == RDiv(TwoPassM2(s), SumW(s))
 SumWV2(s) == RSumSeq([i \in 1..Len(s) |-> RMul(s[i].w, RMul(s[i].v, s[i].v))])
 DirectVar(s) == RSub(RDiv(SumWV2(s), SumW(s)), RMul(WMean(s), WMean(s)))
 SubSamples(s, idx) == [k \in 1..Len(idx) |-> s[idx[k]]]    \* idx: sequence of sample indices
+\* the same samples with every weight multiplied by c > 0 (another unit / no normalisation of the weights)
+ScaleW(s, c) == [i \in 1..Len(s) |-> [v |-> s[i].v, w |-> RMul(c, s[i].w)]]
 \* zero weights: the statistics are those of the samples with positive weight, and are defined
 \* as soon as one weight is positive
 Defined(s)   == SumW(s) # RZero
@@ -77,15 +79,29 @@ PosSamples(s) == IF s = <<>> THEN <<>>
 (*                        weight by 1e-300 so that W' is never 0)          *)
 (*   guard = "unguarded"  0/0 evaluates to NaN (numpy floats do not        *)
 (*                        raise): mean and M2 are NaN from then on         *)
+(*   guard = "tolerant"   the test "nothing weighed yet" is made with an   *)
+(*                        ABSOLUTE threshold (W' < GuardEps, e.g.          *)
+(*                        np.isclose(W', 0)): while the weight sum of a    *)
+(*                        rank is below the threshold its mean is reset to *)
+(*                        0 * v at every update and M2 collects            *)
+(*                        w (v - mean)(v - 0).  Invisible for weights of   *)
+(*                        ordinary size, wrong as soon as the weights are  *)
+(*                        small as a whole (WScale in ParallelStats): the  *)
+(*                        statistics must not depend on the unit of the    *)
+(*                        weights.                                         *)
 (* A NaN accumulator is the extended value NanVal; a finite one a rational.*)
 (***************************************************************************)
 Acc0 == [count |-> 0, wcount |-> RZero, mean |-> NoneV, M2 |-> NoneV]
+GuardEps == R(1, 100)
 UpdAccG(guard, a, v, w) ==
     LET wc   == RAdd(a.wcount, w)
         mold == IF a.mean = NoneV THEN RZero ELSE a.mean
         m2o  == IF a.mean = NoneV THEN RZero ELSE a.M2
     IN  IF a.mean = NanVal \/ (wc = RZero /\ guard = "unguarded")
         THEN [count |-> a.count + 1, wcount |-> wc, mean |-> NanVal, M2 |-> NanVal]
+        ELSE IF guard = "tolerant" /\ RLt(wc, GuardEps)   \* absolute threshold on the weight sum
+        THEN [count |-> a.count + 1, wcount |-> wc, mean |-> RZero,
+              M2 |-> RAdd(m2o, RMul(w, RMul(RSub(v, mold), v)))]
         ELSE IF wc = RZero                                \* guarded 0/0: the sample leaves no mark
         THEN [count |-> a.count + 1, wcount |-> wc, mean |-> RZero, M2 |-> m2o]
         ELSE LET mnew == RAdd(mold, RMul(RDiv(w, wc), RSub(v, mold)))
